@@ -570,6 +570,16 @@ theorem san_ian_uri_twins :
     ∧ isTwin "e_ext_san_uri_host_not_fqdn_or_ip" "e_ext_ian_uri_host_not_fqdn_or_ip" (swapField "URIs" "IANURIs") (swapOid oidSAN oidIAN) = true := by
   decide +kernel
 
+/-- three more pairs whose bodies scan the octets of each name (non-IA5 URI, NUL in a dNSName, `*` after the first octet) -/
+theorem san_ian_octet_twins :
+    isTwin "e_ext_san_uri_not_ia5" "e_ext_ian_uri_not_ia5" (swapField "URIs" "IANURIs") (swapOid oidSAN oidIAN) = true
+    ∧ isTwin "e_san_dns_name_includes_null_char" "e_ian_dns_name_includes_null_char" (swapField "DNSNames" "IANDNSNames") (swapOid oidSAN oidIAN) = true
+    ∧ isTwin "e_san_wildcard_not_first" "e_ian_wildcard_not_first" (swapField "DNSNames" "IANDNSNames") (swapOid oidSAN oidIAN) = true := by
+  decide +kernel
+
+example : (ruleNamed "e_ext_ian_uri_not_ia5").isSome ∧ (ruleNamed "e_ian_dns_name_includes_null_char").isSome ∧ (ruleNamed "e_ian_wildcard_not_first").isSome := by
+  decide +kernel
+
 /-- the pairs are really in the table today (the statements above are not vacuous) -/
 example : (ruleNamed "e_prohibit_dsa_usage").isSome ∧ (ruleNamed "e_ext_ian_space_dns_name").isSome
     ∧ (ruleNamed "e_ian_bare_wildcard").isSome ∧ (ruleNamed "e_ian_dns_name_starts_with_period").isSome
